@@ -425,6 +425,15 @@ theorem C02_derived_calls_closed_form {s : Schema} {rank : String → Nat} (wf :
     (x, cr) ∈ derivedCalls s n ↔ callInfo s (fuelOf s) n x = some (cr, true) := by
   rw [derivedCalls_agree wf rr r1 n]; exact derivedCalls_closed s n x cr hk
 
+/-- The closed form with hypotheses on the schema only, all decidable but `WF`: for every resolved schema in which no attribute
+    name is declared twice (`DeclaredOnce`; redeclarations `SELF\sup.x` are not declarations) and every redeclaration resolves
+    (`RedeclResolves`: what check-express demands), for every entity `n` with any supertype graph: `MakeDerived( x, cr )` is
+    emitted iff `callInfo` answers `(cr, true)`. -/
+theorem C02_derived_calls_closed_form_declared_once {s : Schema} {rank : String → Nat} (wf : WF s rank) (rr : RedeclResolves s)
+    (d1 : DeclaredOnce s) (n x cr : String) :
+    (x, cr) ∈ derivedCalls s n ↔ callInfo s (fuelOf s) n x = some (cr, true) :=
+  C02_derived_calls_closed_form wf rr (oneLine_of_declaredOnce rr d1) n x cr (keyByName_of_declaredOnce wf rr d1 n)
+
 /-- the second-supertype deviation, from the closed form: for `u SUBTYPE OF (c, b)` the first supertype that knows `x` is `c`,
     whose line does not derive it; for `u SUBTYPE OF (b, c)` it is `b`, which does -/
 theorem C02_derived_calls_first_supertype_decides :
